@@ -10,7 +10,7 @@ ID = "C16"
 NEEDS_SHIM = False
 RULE = (
     "histories of <=4 registration calls (constructor metrics= - possibly naming one axis set twice under different spellings - and set_metrics) over a pool of 6-12 metric variables "
-    "(two variants per (axes, position) slot, 1-2 axis sets), each call naming 1-3 variables at pairwise different "
+    "(two variants per (axes, position) slot - the second of a two-axis slot possibly stored with transposed dimensions -, 1-2 axis sets), each call naming 1-3 variables at pairwise different "
     "positions with overwrite True/False and key/value spelled as str/tuple/list; all histories of length <=2 over one "
     "small pool are enumerated exhaustively (600), longer ones are seeded. A shadow registry (slot -> latest variable; "
     "occupied slot without overwrite => refusal, slot unchanged) is advanced on every call and compared behaviourally "
@@ -64,7 +64,8 @@ def gen_case(rng, i, tier):
         rng.shuffle(slots)
         for pos in slots[: rng.randint(2, 4)]:
             for variant in "ab":
-                pool.append({"name": f"m{len(pool)}", "axes": s, "pos": list(pos)})
+                # a two-axis metric may be stored with its dimensions in either order: the slot is the same
+                pool.append({"name": f"m{len(pool)}", "axes": s, "pos": list(pos), "transposed": len(s) == 2 and variant == "b" and rng.random() < 0.6})
     hist = []
     first_ctor = rng.random() < 0.5
     for k in range(rng.randint(1, 4)):
@@ -100,6 +101,8 @@ def build_ds(desc):
     r = np.random.default_rng(desc["mseed"])
     for v in desc["pool"]:
         dims = [cm[a][p] for a, p in zip(v["axes"], v["pos"])]
+        if v.get("transposed"):
+            dims = dims[::-1]
         shp = [ds.sizes[d] for d in dims]
         # distinct values per variable so that a returned metric identifies the variable it came from
         ds[v["name"]] = (dims, r.integers(1, 1000, size=shp).astype(float) + (hash(v["name"]) % 1) )
